@@ -95,7 +95,7 @@ def _varname(term):
     return None
 
 
-def h_json(nr, nc, idk, mdk, header, direct):
+def h_json(nr, nc, idk, mdk, header, direct, reader='from_json'):
     b = B()
     sym = b.mode == 'sym'
     oids, sids = ID_MENUS[idk]
@@ -160,8 +160,34 @@ def h_json(nr, nc, idk, mdk, header, direct):
         for nm_, v, key in (('tid', tid, 'id'), ('gen', gen, 'generated_by'), ('typ', typ, 'type')):
             if header == 'symbolic' and parsed.get(key) != v:
                 fail('json:raw-string-interpolated', f"{key}: {parsed.get(key)!r} vs {v!r}", **sig)
-    # ---- read back
-    t2, e = call(lambda: b.Table.from_json(parsed))
+    # ---- read back: the decoded document through from_json, or the text through the package-level readers (whose JSON
+    # decoder is the standard library's: it is stubbed to hand over `parsed`, the text itself was checked above)
+    if reader == 'from_json':
+        t2, e = call(lambda: b.Table.from_json(parsed))
+    else:
+        import contextlib
+        import sx.env as env
+        P = env.module('biom.parse')
+
+        class _J:
+            loads = staticmethod(lambda text, **k: parsed)
+            load = staticmethod(lambda fh, **k: parsed)
+        P.json = _J
+        if reader == 'parse_table:text':
+            t2, e = call(lambda: P.parse_biom_table(doc))
+        elif reader == 'parse_table:lines':
+            t2, e = call(lambda: P.parse_biom_table([doc]))
+        else:
+            fh2 = T.SFile([doc]) if sym else __import__('io').StringIO(doc)
+            if reader == 'parse_table:handle':
+                t2, e = call(lambda: P.parse_biom_table(fh2))
+            else:
+                @contextlib.contextmanager
+                def fake_open(fp, permission='r'):
+                    yield fh2
+                P.biom_open = fake_open
+                t2, e = call(lambda: P.load_table('some/table.biom'))
+    sig = dict(sig, reader=reader)
     if e is not None:
         fail('json:reload-raised', f"{type(e).__name__}: {e}"[:160], all_zero=int(all_zero), **sig)
         return
@@ -247,6 +273,9 @@ def jobs(tier):
                     if tier == 'quick' and nr * nc > 4 and (idk, mdk) != ('nasty', 'mixed'):
                         continue
                     out.append(('json', (nr, nc, idk, mdk, 'concrete', direct)))
+        if nr * nc <= 4 or tier != 'quick':
+            for reader in ('parse_table:text', 'parse_table:lines', 'parse_table:handle', 'load_table:path'):
+                out.append(('json', (nr, nc, 'nasty', 'mixed', 'concrete', False, reader)))
         for mdk in ('none', 'mixed'):
             out.append(('stream_equals_string', (nr, nc, mdk)))
     return out
